@@ -4,6 +4,7 @@ import (
 	"context"
 	"fmt"
 	"reflect"
+	"strings"
 	"sync"
 
 	"github.com/vimeo/dials"
@@ -19,17 +20,19 @@ func init() {
 		ID:      "C02",
 		Race:    true,
 		RaceAny: true,
-		Rule: "Mode A (reflect-built types as in C01, reference content weighted up, leaves and layers that share maps/slices/pointers on input): the same inputs are stacked twice by the real compose; an address-level alias walker (pointer targets, slice backing-array intervals incl. spare capacity, map headers, through exported fields) must find the two results, the defaults and every layer value pairwise disjoint, the two results deeply equal, and every input identical to its pre-call clone; " +
+		Rule: "Mode A (reflect-built types as in C01, reference content weighted up, leaves and layers that share maps/slices/pointers on input; same-typed slice leaves of the defaults or of one layer are also handed over as different views of one backing array - s and s[:k], s[:k:k], s[j:], s[j:k]; every fifth case draws its leaves from a handful (2-8) of kinds only, so that one type has several fields of one reference type): the same inputs are stacked twice by the real compose; an address-level alias walker (pointer targets, slice backing-array intervals incl. spare capacity, map headers, through exported fields) must find the two results, the defaults and every layer value pairwise disjoint, the two results deeply equal, and every input identical to its pre-call clone; " +
 			"then a sentinel is written through every pointer/map/slice of result 1 and the inputs and result 2 are re-compared with their clones (behavioural cross-check of the walker). " +
 			"Mode B (real Dials[Cfg] with a static first source and 1-3 fake watchers, 3-12 re-stacks): every config obtained from View, ViewVersion, Events, OnNewConfig and registered callbacks, the defaults and every value a source returned or reported must be pairwise disjoint; defaults and source values must equal their clones after the history; " +
-			"finally one goroutine scribbles over version k while another reads version k+1, the defaults and the source values under the race detector (every race report is a violation). distinct_nontrivial = distinct (type-shape, set-pattern) signatures with >=1 reference-typed leaf set (mode A) and distinct (options, report-pattern) signatures (mode B).",
+			"Mode C (a static config type through the public API: exported pointers that point at sibling fields - exported, unexported, inside a sibling struct, an element of a sibling list -, at separate objects or at one another, declared before and after what they point at; two lists that may be views of one backing array; 1-3 sources that cache their value, one of them watching and reporting 1-3 new values): two Configs over the same inputs must give deeply equal views; all views (both Configs, every re-stack), the defaults and every source value must be pairwise disjoint for the alias walker; defaults and source values must equal untouched twins built from the same seed (unexported fields included) after stacking and after writing through one version, and the other versions must not change by that write. " +
+			"finally (mode B) one goroutine scribbles over version k while another reads version k+1, the defaults and the source values under the race detector (every race report is a violation). distinct_nontrivial = distinct (type-shape, set-pattern) signatures with >=1 reference-typed leaf set (mode A) and distinct (options, report-pattern) signatures (mode B).",
 		Assumptions: []string{
 			"memory reachable only through unexported fields (time.Time's *Location) is outside the statement and not walked",
 			"two leaves sharing memory inside ONE version (because the input shared it) is not a violation; only sharing across versions/inputs is",
 		},
 		MinDistinct: map[string]int{"quick": 1500, "thorough": 40000},
 		MinCounters: map[string]map[string]int64{
-			"quick":    {"region_pairs_checked": 20000, "regions_walked": 100000, "mutation_probe_writes": 50000, "restack_versions_compared": 1500, "scribble_vs_read_rounds": 300},
+			"quick":    {"region_pairs_checked": 20000, "regions_walked": 100000, "mutation_probe_writes": 50000, "restack_versions_compared": 1500, "scribble_vs_read_rounds": 300,
+				"self_referential_cases": 500, "self_referential_restacks": 500, "cases_with_slice_views_checked": 250, "cases_with_views_of_slices_whose_elements_hold_references": 80},
 			"thorough": {"region_pairs_checked": 800000},
 		},
 		Plan: func(tier string) fw.Plan {
@@ -56,16 +59,69 @@ func refLeaves() []*gen.Leaf {
 
 func runC02(w *fw.Worker) {
 	w.Cases(func(i int, r *fw.Rand) {
-		if i%5 == 4 {
+		switch {
+		case i%5 == 4:
 			c02Restack(w, i, r)
-		} else {
+		case i%10 == 7:
+			c02Interior(w, i, r)
+		default:
 			c02Compose(w, i, r)
 		}
 	})
 }
 
+// c02NarrowPool: a few leaf kinds only, so that one config type has several fields of the same reference type (a list
+// and its first entries, two pointers at one variable, one map in two settings): one or two slice kinds (half of the
+// time kinds whose elements hold references themselves) and one or two other kinds.
+func c02NarrowPool(r *fw.Rand) []*gen.Leaf {
+	var slices, refElems, others []*gen.Leaf
+	for _, l := range gen.AllLeaves {
+		switch {
+		case l.Type.Kind() == reflect.Slice && l.Caps&gen.CapTextU == 0:
+			slices = append(slices, l)
+			if typeHoldsRefs(l.Type.Elem()) {
+				refElems = append(refElems, l)
+			}
+		default:
+			others = append(others, l)
+		}
+	}
+	var out []*gen.Leaf
+	for n := r.Range(1, 2); n > 0; n-- {
+		if r.Bool() && len(refElems) > 0 {
+			out = append(out, fw.Pick(r, refElems), fw.Pick(r, refElems)) // weighted up
+		}
+		out = append(out, fw.Pick(r, slices))
+	}
+	for n := r.Range(1, 2); n > 0; n-- {
+		out = append(out, fw.Pick(r, others))
+	}
+	return out
+}
+
+// typeHoldsRefs: values of t contain a pointer, map or slice in an exported position.
+func typeHoldsRefs(t reflect.Type) bool {
+	switch t.Kind() {
+	case reflect.Ptr, reflect.Map, reflect.Slice, reflect.Interface:
+		return true
+	case reflect.Array:
+		return typeHoldsRefs(t.Elem())
+	case reflect.Struct:
+		for k := 0; k < t.NumField(); k++ {
+			if t.Field(k).IsExported() && typeHoldsRefs(t.Field(k).Type) {
+				return true
+			}
+		}
+	}
+	return false
+}
+
 func c02Compose(w *fw.Worker, i int, r *fw.Rand) {
 	o := gen.GenOpts{MaxDepth: w.Pick(3, 4) - r.Intn(2), MaxFields: r.Range(2, 7), SkipPct: r.Range(0, 20), StructPct: r.Range(10, 40), Leaves: refLeaves(), InitialismPct: 10, HollowPct: 5}
+	if i%5 == 2 {
+		o.Leaves = c02NarrowPool(r)
+		w.Count("cases_with_a_narrow_leaf_pool", 1)
+	}
 	spec := gen.RandomSpec(r, o)
 	c := &gen.Counter{}
 	allLeaves := spec.LeafRefs()
@@ -85,6 +141,9 @@ func c02Compose(w *fw.Worker, i int, r *fw.Rand) {
 		}
 		leaves = append(leaves, lr)
 	}
+	// same-typed slice leaves of the defaults as views of one backing array (s and s[:k], s[j:], ...)
+	viewLeaves := map[*gen.Field]bool{}
+	nViews := sliceViewsInDefaults(r, allLeaves, defaults, viewLeaves)
 	defPtr := reflect.New(spec.Type())
 	defPtr.Elem().Set(defaults)
 	ptrType := ptrify.Pointerify(spec.Type(), defPtr.Elem())
@@ -96,7 +155,11 @@ func c02Compose(w *fw.Worker, i int, r *fw.Rand) {
 	// make inputs share reference content: between leaves of one layer and between layers
 	byType := map[reflect.Type][]reflect.Value{}
 	for _, l := range layers {
-		for lr, v := range l.Vals {
+		for _, lr := range leaves { // in declaration order (not map order): the case must be a function of the seed
+			v, ok := l.Vals[lr]
+			if !ok {
+				continue
+			}
 			if lr.Leaf().Leaf.Caps&gen.CapRef != 0 && r.Chance(30) {
 				if prev := byType[v.Type()]; len(prev) > 0 {
 					l.Vals[lr] = prev[r.Intn(len(prev))] // the very same map/slice/pointer again
@@ -106,6 +169,11 @@ func c02Compose(w *fw.Worker, i int, r *fw.Rand) {
 			}
 			byType[v.Type()] = append(byType[v.Type()], v)
 		}
+		// ... and slices of one layer that share a backing array without being the same slice
+		nViews += sliceViewsInLayer(r, leaves, l, viewLeaves)
+	}
+	if nViews > 0 {
+		w.Count("slice_leaves_made_views_of_one_backing_array", int64(nViews))
 	}
 	vals := make([]reflect.Value, nLayers)
 	refSet := false
@@ -193,6 +261,15 @@ func c02Compose(w *fw.Worker, i int, r *fw.Rand) {
 	if d := gen.Diff(v2clone, v2.Elem()); d != "" {
 		w.Violation(i, "second-result-changed-by-writing-through-first", d, witness())
 		return
+	}
+	if nViews > 0 {
+		w.Count("cases_with_slice_views_checked", 1)
+		for f := range viewLeaves {
+			if typeHoldsRefs(f.Leaf.Type.Elem()) {
+				w.Count("cases_with_views_of_slices_whose_elements_hold_references", 1)
+				break
+			}
+		}
 	}
 	if refSet {
 		m, _ := setMatrix(leaves, layers)
@@ -383,6 +460,358 @@ func c02Restack(w *fw.Worker, i int, r *fw.Rand) {
 	}
 	w.Distinct(fmt.Sprintf("B|%v%v%d|%s", o.StaticFirst, o.Skip, o.NSrc, pattern))
 	if i%97 == 4 {
+		w.Sample(desc)
+	}
+}
+
+// ---- mode C: a static config type that points into itself and keeps views of its own lists (public API)
+
+type c02Retry struct{ Max int }
+
+type c02Limits struct {
+	Max     int
+	PerHost map[string]int
+	Burst   *int
+	Retry   *c02Retry
+	Hosts   []string
+}
+
+type c02Backend struct {
+	Name   string
+	Tags   map[string]string
+	Weight *int
+}
+
+// c02Self: exported pointers that may point at sibling fields (exported or not), into a sibling struct, at an element
+// of a sibling list, at a separate object or at one another; two lists that may be views of one backing array.
+type c02Self struct {
+	Early    *c02Limits // declared before everything it may point at
+	builtin  c02Limits  // compiled-in values, not exposed
+	Shown    c02Limits
+	Limits   *c02Limits
+	Port     int
+	Primary  []c02Backend
+	Backends []c02Backend
+	List     []c02Limits
+	Alt      *c02Limits
+	Count    *int
+	Weights  []*int
+}
+
+// c02MkSelf builds the defaults from a seed; called twice with the same seed it builds two values that share nothing
+// (the second is the untouched twin the first is compared with afterwards, unexported fields included).
+func c02MkSelf(r *fw.Rand) (*c02Self, string) {
+	uniq := 0
+	next := func() int { uniq++; return uniq }
+	mkLimits := func() c02Limits {
+		b := next()
+		return c02Limits{Max: next(), PerHost: map[string]int{"h": next(), "g": next()}, Burst: &b, Retry: &c02Retry{Max: next()},
+			Hosts: append(make([]string, 0, 4), fmt.Sprint("host", next()), "x")}
+	}
+	d := &c02Self{builtin: mkLimits(), Shown: mkLimits(), Port: next()}
+	d.List = []c02Limits{mkLimits(), mkLimits()}
+	shape := ""
+	all := c02MkBackends(next, r.Range(2, 4))
+	switch r.Intn(4) {
+	case 0:
+		d.Primary, d.Backends = c02MkBackends(next, 1), all
+	case 1:
+		d.Primary, d.Backends = sliceViewOf(r, reflect.ValueOf(all)).Interface().([]c02Backend), all
+		shape += fmt.Sprintf("Primary=view(%d/%d) Backends=all(%d/%d);", len(d.Primary), cap(d.Primary), len(all), cap(all))
+	case 2:
+		d.Primary, d.Backends = all, sliceViewOf(r, reflect.ValueOf(all)).Interface().([]c02Backend)
+		shape += fmt.Sprintf("Primary=all(%d/%d) Backends=view(%d/%d);", len(all), cap(all), len(d.Backends), cap(d.Backends))
+	case 3:
+		d.Backends = all
+	}
+	target := func(name string) *c02Limits {
+		k := r.Intn(7)
+		shape += fmt.Sprintf("%s->%s;", name, [...]string{"nil", "separate", "&builtin", "&Shown", "&List[0]", "&List[1]", "&builtin"}[k])
+		switch k {
+		case 0:
+			return nil
+		case 1:
+			l := mkLimits()
+			return &l
+		case 3:
+			return &d.Shown
+		case 4:
+			return &d.List[0]
+		case 5:
+			return &d.List[1]
+		}
+		return &d.builtin
+	}
+	d.Early, d.Limits, d.Alt = target("Early"), target("Limits"), target("Alt")
+	if r.Chance(25) {
+		d.Alt = d.Limits
+		shape += "Alt=Limits;"
+	}
+	k := r.Intn(7)
+	shape += fmt.Sprintf("Count->%s;", [...]string{"nil", "separate", "&Port", "&Shown.Max", "&builtin.Max", "Shown.Burst", "&List[1].Max"}[k])
+	switch k {
+	case 1:
+		x := next()
+		d.Count = &x
+	case 2:
+		d.Count = &d.Port
+	case 3:
+		d.Count = &d.Shown.Max
+	case 4:
+		d.Count = &d.builtin.Max
+	case 5:
+		d.Count = d.Shown.Burst
+	case 6:
+		d.Count = &d.List[1].Max
+	}
+	if r.Bool() {
+		// a list of pointers at the config's own numbers and at its backends' weights
+		d.Weights = []*int{&d.Port, all[0].Weight, &d.Shown.Max, all[len(all)-1].Weight}
+		shape += "Weights->own;"
+	}
+	return d, shape
+}
+
+func c02MkBackends(next func() int, n int) []c02Backend {
+	out := make([]c02Backend, n)
+	for k := range out {
+		wt := next()
+		out[k] = c02Backend{Name: fmt.Sprint("db", next()), Tags: map[string]string{"zone": fmt.Sprint("z", next())}, Weight: &wt}
+	}
+	return out
+}
+
+// c02Assign is one setting of a layer: the path (field names) in the type dials hands to sources, and the value.
+type c02Assign struct {
+	path string
+	val  reflect.Value
+}
+
+// c02MkLayer draws one layer for c02Self; twice from one seed = two layers that share nothing.
+func c02MkLayer(r *fw.Rand, base int) []c02Assign {
+	uniq := base
+	next := func() int { uniq++; return uniq }
+	var out []c02Assign
+	set := func(pct int, path string, mk func() any) {
+		if r.Chance(pct) {
+			out = append(out, c02Assign{path, reflect.ValueOf(mk())})
+		}
+	}
+	for _, p := range []string{"Shown", "Limits", "Alt", "Early"} {
+		p := p
+		set(30, p+".Max", func() any { return next() })
+		set(30, p+".Retry.Max", func() any { return next() })
+		set(25, p+".PerHost", func() any { return map[string]int{"layer": next()} })
+		set(25, p+".Burst", func() any { x := next(); return &x })
+		set(20, p+".Hosts", func() any { return []string{fmt.Sprint("lh", next())} })
+	}
+	set(40, "Port", func() any { return next() })
+	set(30, "Count", func() any { x := next(); return &x })
+	set(25, "List", func() any {
+		b := next()
+		return []c02Limits{{Max: next(), PerHost: map[string]int{"l": next()}, Burst: &b, Retry: &c02Retry{Max: next()}}}
+	})
+	if r.Chance(50) {
+		all := c02MkBackends(next, r.Range(2, 4))
+		view := sliceViewOf(r, reflect.ValueOf(all))
+		switch r.Intn(3) {
+		case 0:
+			out = append(out, c02Assign{"Primary", view}, c02Assign{"Backends", reflect.ValueOf(all)})
+		case 1:
+			out = append(out, c02Assign{"Primary", reflect.ValueOf(all)}, c02Assign{"Backends", view})
+		case 2:
+			out = append(out, c02Assign{"Backends", reflect.ValueOf(all)})
+		}
+	}
+	return out
+}
+
+// c02BuildLayer materialises the settings into a value of the pointerified type t, by field name, without cloning.
+func c02BuildLayer(t reflect.Type, as []c02Assign) reflect.Value {
+	v := reflect.New(t).Elem()
+	for _, a := range as {
+		fv := v
+		for _, name := range strings.Split(a.path, ".") {
+			for fv.Kind() == reflect.Ptr {
+				if fv.IsNil() {
+					fv.Set(reflect.New(fv.Type().Elem()))
+				}
+				fv = fv.Elem()
+			}
+			fv = fv.FieldByName(name)
+			if !fv.IsValid() {
+				panic("harness: c02BuildLayer: no field " + a.path)
+			}
+		}
+		switch {
+		case fv.Type() == a.val.Type():
+			fv.Set(a.val)
+		case fv.Kind() == reflect.Ptr && fv.Type().Elem() == a.val.Type():
+			p := reflect.New(a.val.Type())
+			p.Elem().Set(a.val)
+			fv.Set(p)
+		default:
+			panic(fmt.Sprintf("harness: c02BuildLayer: %s: cannot store %s into %s", a.path, a.val.Type(), fv.Type()))
+		}
+	}
+	return v
+}
+
+// c02SelfSrc hands over one cached value object (every Config over it gets the very same object) and can report new ones.
+type c02SelfSrc struct {
+	seed uint64
+	base int
+	mu   sync.Mutex
+	val  reflect.Value
+	wa   dials.WatchArgs
+	typ  *dials.Type
+}
+
+func (s *c02SelfSrc) Value(_ context.Context, t *dials.Type) (reflect.Value, error) {
+	s.mu.Lock()
+	defer s.mu.Unlock()
+	if !s.val.IsValid() {
+		s.val = c02BuildLayer(t.Type(), c02MkLayer(fw.NewRand(s.seed), s.base))
+	}
+	return s.val, nil
+}
+
+func (s *c02SelfSrc) Watch(_ context.Context, t *dials.Type, wa dials.WatchArgs) error {
+	s.mu.Lock()
+	s.wa, s.typ = wa, t
+	s.mu.Unlock()
+	return nil
+}
+
+type c02StaticOnly struct{ dials.Source } // hides Watch
+
+func c02Interior(w *fw.Worker, i int, r *fw.Rand) {
+	defSeed := r.U64()
+	def, shape := c02MkSelf(fw.NewRand(defSeed))
+	twin, _ := c02MkSelf(fw.NewRand(defSeed))
+	nSrc := r.Range(1, 3)
+	srcs := make([]*c02SelfSrc, nSrc)
+	first := make([]dials.Source, nSrc)
+	second := make([]dials.Source, nSrc)
+	watcher := r.Intn(nSrc)
+	for k := range srcs {
+		srcs[k] = &c02SelfSrc{seed: r.U64(), base: 1000 * (k + 1)}
+		first[k], second[k] = c02StaticOnly{srcs[k]}, c02StaticOnly{srcs[k]}
+	}
+	first[watcher] = srcs[watcher]
+	desc := map[string]any{"mode": "self-referential static type", "defaults_shape": shape, "sources": nSrc, "defaults_seed": defSeed}
+	ctx, cancel := context.WithCancel(context.Background())
+	defer cancel()
+	d1, err1 := dials.Config(ctx, def, first...)
+	d2, err2 := dials.Config(ctx, def, second...)
+	if err1 != nil || err2 != nil {
+		w.Violation(i, "self-referential-config:config-failed", fmt.Sprint(err1, err2), desc)
+		return
+	}
+	// inputs: the defaults and every value a source handed over, each with a twin built from the same seed
+	type input struct {
+		what      string
+		val, twin reflect.Value
+	}
+	inputs := []input{{"defaults", reflect.ValueOf(def), reflect.ValueOf(twin)}}
+	ptrType := srcs[0].val.Type()
+	for k, s := range srcs {
+		inputs = append(inputs, input{fmt.Sprintf("value of source %d", k), s.val, c02BuildLayer(ptrType, c02MkLayer(fw.NewRand(s.seed), s.base))})
+	}
+	type version struct {
+		what string
+		cfg  *c02Self
+	}
+	versions := []version{{"View of the first Config", d1.View()}, {"View of a second Config over the same inputs", d2.View()}}
+	if df := gen.Diff(reflect.ValueOf(versions[0].cfg), reflect.ValueOf(versions[1].cfg)); df != "" {
+		w.Violation(i, "self-referential-config:stacking-twice-not-deeply-equal", df, desc)
+		return
+	}
+	// re-stacks: the watching source reports 1-3 new values
+	s := srcs[watcher]
+	for k, n := 0, r.Range(1, 3); k < n; k++ {
+		seed, base := r.U64(), 10000*(k+1)
+		val := c02BuildLayer(s.typ.Type(), c02MkLayer(fw.NewRand(seed), base))
+		inputs = append(inputs, input{fmt.Sprintf("value %d reported by source %d", k, watcher), val, c02BuildLayer(ptrType, c02MkLayer(fw.NewRand(seed), base))})
+		if err := s.wa.BlockingReportNewValue(ctx, val); err != nil {
+			w.Violation(i, "self-referential-config:watcher-update-failed", err.Error(), desc)
+			return
+		}
+		versions = append(versions, version{fmt.Sprintf("View after report %d", k), d1.View()})
+		w.Count("self_referential_restacks", 1)
+	}
+	inputsUnchanged := func(when string) bool {
+		for _, in := range inputs {
+			if df := gen.Diff(in.twin, in.val); df != "" {
+				what := "source-value"
+				if in.what == "defaults" {
+					what = "defaults"
+				}
+				w.Violation(i, "self-referential-config:"+what+"-modified:"+when, fmt.Sprintf("%s, untouched twin vs the object dials was given: %s", in.what, df), desc)
+				return false
+			}
+		}
+		return true
+	}
+	if !inputsUnchanged("by-stacking") {
+		return
+	}
+	regs := make([][]gen.Region, len(versions))
+	for k, v := range versions {
+		regs[k] = gen.Regions(reflect.ValueOf(v.cfg))
+		w.Count("regions_walked", int64(len(regs[k])))
+	}
+	for a := range versions {
+		for b := a + 1; b < len(versions); b++ {
+			w.Count("region_pairs_checked", 1)
+			if ov := gen.Overlap(regs[a], regs[b]); ov != "" {
+				w.Violation(i, "self-referential-config:shared-memory:version-vs-version", fmt.Sprintf("%s and %s: %s", versions[a].what, versions[b].what, ov), desc)
+				return
+			}
+		}
+		for _, in := range inputs {
+			w.Count("region_pairs_checked", 1)
+			if ov := gen.Overlap(regs[a], gen.Regions(in.val)); ov != "" {
+				what := "source-value"
+				if in.what == "defaults" {
+					what = "defaults"
+				}
+				w.Violation(i, "self-referential-config:shared-memory:version-vs-"+what, fmt.Sprintf("%s and %s: %s", versions[a].what, in.what, ov), desc)
+				return
+			}
+		}
+	}
+	// behavioural cross-check: write through everything reachable from one version
+	k := r.Intn(len(versions))
+	clones := make([]reflect.Value, len(versions))
+	for j, v := range versions {
+		clones[j] = gen.CloneValue(reflect.ValueOf(v.cfg))
+	}
+	w.Count("mutation_probe_writes", int64(gen.Scribble(reflect.ValueOf(versions[k].cfg))))
+	if !inputsUnchanged("by-writing-through-a-version") {
+		return
+	}
+	for j, v := range versions {
+		if j == k {
+			continue
+		}
+		if df := gen.Diff(clones[j], reflect.ValueOf(v.cfg)); df != "" {
+			w.Violation(i, "self-referential-config:version-changed-by-writing-through-another", fmt.Sprintf("wrote through %s; %s changed: %s", versions[k].what, v.what, df), desc)
+			return
+		}
+	}
+	w.Count("self_referential_cases", 1)
+	w.Count("self_referential_versions_compared", int64(len(versions)))
+	for _, p := range strings.Split(shape, ";") {
+		if p != "" {
+			if strings.HasPrefix(p, "Primary=") {
+				p = strings.SplitN(p, "(", 2)[0] + "..."
+			}
+			w.SetAdd("self_referential_default_shapes", p)
+		}
+	}
+	w.Distinct("C|" + shape)
+	if i%400 == 7 {
 		w.Sample(desc)
 	}
 }
